@@ -62,6 +62,9 @@ def run(ctx):
     # very first delete, the finished seed must already be in the WARC
     modes.append("big+kill:lq.delete:1")
     modes.append("big503+kill:lq.delete:1")
+    # the same for a page requisite: the first asset of the first page is slow to write, the small ones next to it are not
+    modes.append("bigasset+kill:lq.finish.recv@seed-bigasset:1")
+    modes.append("bigasset+kill:fin.finish@seed-bigasset:1")
     # a graceful stop while the first attempt of a URL is in flight; the attempt is cut after the stop began, the retry
     # would succeed (the worker hands a finished seed on only every other time: several cases)
     modes += ["flaky+stop:req:1"] * (3 if quick else 8)
